@@ -13,11 +13,12 @@ CONSTANTS
   INames = {"i1", "i2"}
   SNames = {"d1"}
   Alpha <- AlphaQ
-  ParamSites = {"clients", "it", "ibody", "tbody"}
+  ParamSites = {"clients", "it", "ibody", "tbody", "mac"}
   XUses <- XUsesQ
   XParams = {"x1"}
   XVals <- XValsQ
   TplKinds = {"composable"}
+  BUrls = {"u1"}
   NumParams = {"p1"}
   StrParams = {"q1"}
   SupVals = {0, 2}
